@@ -2,3 +2,6 @@ import GodiModel.Kahn
 import GodiModel.Dfs
 import GodiModel.Graph
 import GodiModel.Spec.Digraph
+import GodiModel.Middleware
+import GodiModel.Gen.Middleware
+import GodiModel.MiddlewareAll
